@@ -140,6 +140,9 @@ var sampled sync.Map
 // runCase executes one sequential case: invariants on a fresh client, then the
 // differential for the case's root (kind diff) or for every version (kind all).
 func runCase(r *ev.Run, e *env, c Case, shrink bool) {
+	if os.Getenv("C18_NOSHRINK") != "" {
+		shrink = false
+	}
 	if c.Registry == nil || len(c.Registry.Pkgs) == 0 {
 		r.Inconclusive("case without registry: " + c.Note)
 		return
